@@ -41,6 +41,15 @@ func runC15(c *core.Check) {
 		c.Broken("Peeker.tla does not satisfy its invariants: %v %s", perr, pst.ErrorMsg)
 		return
 	}
+	if c.Tier == "thorough" {
+		// the same invariants for behaviours of any length: machine-checked proofs (TLAPS)
+		n, out, err := core.RunTLAPM("PeekerProofs", minutes(10))
+		if err != nil {
+			c.Broken("tlapm could not check spec/proofs/PeekerProofs.tla: %v %s", err, out)
+			return
+		}
+		c.Extra["tlaps_obligations_proved_PeekerProofs"] = n
+	}
 	sample := int64(400)
 	if c.Tier == "thorough" {
 		sample = 4000
